@@ -1,6 +1,10 @@
 package main
 
 import (
+	"fmt"
+
+	"github.com/bluenviron/mediacommon/v2/pkg/codecs/h264"
+
 	"verifharness/internal/rng"
 )
 
@@ -43,6 +47,8 @@ type auA struct {
 	HasParams bool    `json:"hasparams"`
 	Params    int64   `json:"params"`
 	RpsArg    int     `json:"rpsarg,omitempty"` // H265 only, not seen by the model: slice-header argument that fixes pts - dts
+	Poc       int     `json:"poc,omitempty"`    // H264 in a reorder history, not seen by the model: pic_order_cnt_lsb of the slice header
+	BSlice    bool    `json:"bslice,omitempty"` // H264 in a reorder history: the slice is a B slice
 	Units     []unitA `json:"units"`
 }
 
@@ -59,6 +65,28 @@ type history struct {
 	// Faults lists the ordinals (0-based, in call order) of storage NewFile calls that fail. A
 	// history with faults is outside the model (no T leg); only the retention oracle of C18 runs on it.
 	Faults []int `json:"faults,omitempty"`
+	// H264Reorder selects the H264 concretisation with real slice headers and pic_order_cnt_type 0
+	// parameter sets (h264.go); histories recorded before it existed replay with the legacy layout.
+	H264Reorder bool `json:"h264reorder,omitempty"`
+	// Stats: counters of the generator (what it produced), reported in the distribution; not an input
+	Stats map[string]int `json:"stats,omitempty"`
+}
+
+func (h *history) stat(k string) {
+	if h.Stats == nil {
+		h.Stats = map[string]int{}
+	}
+	h.Stats[k]++
+}
+
+// kH264R: decoder-side kind of an H264 track whose slice NAL units carry a slice header (payload id offset)
+const kH264R = 7
+
+func decKind(h *history, kind int) int {
+	if kind == kH264 && h.H264Reorder {
+		return kH264R
+	}
+	return kind
 }
 
 func isVideoKind(k int) bool { return k >= kH264 && k <= kAV1 }
@@ -148,7 +176,12 @@ func genHistory(r *rng.R, long bool) history {
 		}
 		v.Params0 = int64(r.Intn(12))
 		if v.Kind == kH264 {
-			v.Params0 = 1
+			// two in three H264 histories use real slice headers and, for parameter ids with q >= 2,
+			// pic_order_cnt_type 0 parameter sets with B pictures (decode time < presentation time)
+			h.H264Reorder = r.Bool(2, 3)
+			if !h.H264Reorder {
+				v.Params0 = 1
+			}
 		}
 		if r.Bool(1, 5) { // IsDefault on the video track is legal and must not count as a default audio rendition
 			v.Default = true
@@ -172,6 +205,19 @@ func genHistory(r *rng.R, long bool) history {
 		started  bool
 		params   int64
 		ahead    int
+		// H264 under pic_order_cnt_type 0 (reorder histories): display-order bookkeeping and the
+		// generator's own instance of the DTS extractor
+		ex          *h264.DTSExtractor
+		bf          int   // at most this many B pictures between two anchors
+		pocStep     int   // pic_order_cnt_lsb per displayed picture (2 frame / 1 field-style numbering)
+		pocBase     int   // pic_order_cnt_lsb of the GOP's IDR picture
+		gopBase     int64 // presentation time of the GOP's IDR picture
+		disp        int   // display index of the last anchor in the GOP
+		pendB       []int // display indices of the B pictures still to be sent (decode order: after their anchor)
+		lastPTS     int64
+		havePTS     bool
+		prevReorder bool
+		forceKey    bool // boundary aiming: the next unit is a random-access one
 	}
 	st := make([]tstate, len(tracks))
 	startSec := r.Range(-9, 30) // negative starts down to -10 s
@@ -191,6 +237,11 @@ func genHistory(r *rng.R, long bool) history {
 			}
 			s.jitter = r.Bool(1, 3)
 			s.gop = []int{1, 2, 5, 10, 25, 30, 60, 100}[r.Intn(8)]
+			s.bf = r.Intn(4)
+			s.pocStep = 2
+			if r.Bool(1, 5) {
+				s.pocStep = 1
+			}
 			s.sinceKey = r.Intn(s.gop + 1) // may start mid-GOP
 			if s.sinceKey == 0 {
 				s.sinceKey = s.gop
@@ -207,6 +258,57 @@ func genHistory(r *rng.R, long bool) history {
 		case kOpus:
 			s.frameDur = 960
 			s.dts = startSec * 48000
+		}
+	}
+	// boundary aiming (one history in three): the leading track's random-access units are placed exactly
+	// at / one tick before / one tick after the tick at which the open segment reaches SegmentMinDuration
+	// (Low-Latency, once the part duration is frozen: also units at the part boundary), with segments
+	// starting on arbitrary ticks. gensim.go keeps track of where the open segment and part started.
+	lead := 0
+	for i, t := range tracks {
+		if isVideoKind(t.Kind) {
+			lead = i
+		}
+	}
+	var sim *leadSim
+	if r.Bool(1, 3) {
+		sim = &leadSim{variant: h.Variant, rate: tracks[lead].Rate, segMin: h.SegMin, partMin: h.PartMin}
+		if sim.partMin == 0 {
+			sim.partMin = 200e6
+		}
+		if h.Variant != 1 {
+			sim.off = 10 * sim.rate
+		}
+		st[lead].dts += int64(r.Intn(int(st[lead].frameDur)))
+		h.stat("boundary-aimed-histories")
+	}
+	var simCur = tracks[lead].Params0
+	simPend, simStarted := false, false
+	aimSet, aimKey, aimGen, aimTick, aimDelta, aimMin, aimWhat := false, false, -1, int64(0), int64(0), int64(-1), ""
+	aim := func(s *tstate, x int64, video bool) {
+		if sim == nil || !sim.open {
+			return
+		}
+		if aimGen != sim.gen {
+			aimSet, aimMin = false, -1
+		}
+		if !aimSet {
+			aimDelta = aimMin + int64(r.Intn(int(2-aimMin)))
+			if h.Variant == 3 && sim.frozen && sim.adj > 0 && r.Bool(1, 2) {
+				aimTick, aimKey, aimWhat = sim.partTarget(aimDelta), false, "part"
+			} else {
+				aimTick, aimKey, aimWhat = sim.segTarget(aimDelta), video, "segment"
+			}
+			aimSet, aimGen = true, sim.gen
+		}
+		if aimTick <= x || aimTick > s.dts+s.frameDur/2 {
+			return // already passed (wait until the open segment / part changes), or not within reach yet
+		}
+		s.dts = aimTick
+		s.forceKey = aimKey
+		h.stat(fmt.Sprintf("aimed-%s-boundary%+d-tick", aimWhat, aimDelta))
+		if aimDelta < 1 && r.Bool(1, 2) {
+			aimSet, aimMin = false, aimDelta+1 // and again, a tick or two later
 		}
 	}
 	nextID := int64(1)
@@ -228,13 +330,19 @@ func genHistory(r *rng.R, long bool) history {
 		a := auA{Track: ti}
 		switch t.Kind {
 		case kH264, kH265, kVP9, kAV1:
-			key := s.sinceKey >= s.gop
+			reoStream := t.Kind == kH264 && h.H264Reorder
+			key := s.sinceKey >= s.gop || s.forceKey
+			s.forceKey = false
+			if reoStream && len(s.pendB) > 0 {
+				key = false // the B pictures of the last anchor come first
+			}
 			if key {
 				s.sinceKey = 0
 			}
 			s.sinceKey++
 			a.RA = key
 			a.NonIDR = !key
+			prevParams := s.params
 			nalBased := t.Kind == kH264 || t.Kind == kH265
 			if nalBased && r.Bool(1, 40) { // a unit with neither IDR nor non-IDR slices (e.g. only parameter sets)
 				a.RA, a.NonIDR = false, false
@@ -247,7 +355,14 @@ func genHistory(r *rng.R, long bool) history {
 					a.HasParams, a.Params = true, s.params
 				}
 				if r.Bool(1, 25) { // parameter change, on IDR or non-IDR units
-					s.params = 1 + (s.params % 11)
+					np := 1 + (s.params % 11)
+					if reoStream && !a.RA {
+						// between two IDR pictures the picture-order-count type stays what it is
+						for h264ReorderID(&h, np) != h264ReorderID(&h, s.params) {
+							np = 1 + (np % 11)
+						}
+					}
+					s.params = np
 					a.HasParams, a.Params = true, s.params
 				}
 			} else if a.RA {
@@ -289,6 +404,112 @@ func genHistory(r *rng.R, long bool) history {
 			}
 			a.Units = []unitA{{ID: nextID, Len: ln}}
 			nextID++
+			if reoStream {
+				sliced := a.RA || a.NonIDR
+				if h264ReorderID(&h, s.params) {
+					// presentation times follow the display order, units are written in decode order:
+					// I0 P(k+1) B1 .. Bk P.. ; pic_order_cnt_lsb = pocBase + pocStep * display index
+					fd := s.frameDur
+					switch {
+					case !sliced:
+						if s.havePTS && s.lastPTS > a.PTS {
+							a.PTS = s.lastPTS
+						}
+					case a.RA:
+						base := a.PTS
+						if s.havePTS && s.lastPTS+fd > base {
+							base = s.lastPTS + fd
+						}
+						s.gopBase, s.disp = base, 0
+						s.pocBase = 0
+						if r.Bool(1, 4) {
+							s.pocBase = 2 * r.Intn(32)
+						}
+						a.PTS, a.Poc = base, s.pocBase
+					case len(s.pendB) > 0:
+						dsp := s.pendB[0]
+						s.pendB = s.pendB[1:]
+						a.BSlice = true
+						a.PTS, a.Poc = s.gopBase+int64(dsp)*fd, (s.pocBase+s.pocStep*dsp)%64
+					default:
+						dsp := s.disp + 1 + r.Intn(s.bf+1)
+						for i := s.disp + 1; i < dsp; i++ {
+							s.pendB = append(s.pendB, i)
+						}
+						s.disp = dsp
+						a.PTS, a.Poc = s.gopBase+int64(dsp)*fd, (s.pocBase+s.pocStep*dsp)%64
+					}
+					if sliced {
+						s.prevReorder = true
+					}
+				} else {
+					// a baseline SPS inside a reorder history: pts = dts, after everything presented so far
+					if s.prevReorder && s.havePTS && a.PTS <= s.lastPTS {
+						shift := s.lastPTS + s.frameDur - a.PTS
+						a.PTS += shift
+						s.dts += shift
+					}
+					s.pendB = nil
+					if sliced {
+						s.prevReorder = false
+					}
+				}
+				a.DTS = a.PTS
+				if sliced && (s.ex != nil || a.RA) {
+					// the muxer feeds every unit with slices, from the first IDR on, to its DTS extractor;
+					// this instance sees the same units. A unit the extractor rejects is not written:
+					// it degenerates to a unit without slices.
+					fresh := s.ex == nil
+					if fresh {
+						s.ex = &h264.DTSExtractor{}
+						s.ex.Initialize()
+					}
+					saved := *s.ex
+					c := concretize(&h, &a)
+					dts, err := s.ex.Extract(c.au, a.PTS)
+					if err != nil {
+						*s.ex = saved
+						if fresh {
+							s.ex = nil
+						}
+						if a.RA {
+							s.sinceKey = s.gop
+						}
+						s.params = prevParams
+						a.RA, a.NonIDR, a.HasParams, a.Params, a.BSlice, a.Poc = false, false, false, 0, false, 0
+						h.stat("h264-unit-rejected-by-dts-extractor")
+					} else {
+						a.DTS = dts
+						if dts < a.PTS {
+							h.stat("h264-unit-dts-below-pts")
+						}
+					}
+				}
+				if !s.havePTS || a.PTS > s.lastPTS {
+					s.lastPTS, s.havePTS = a.PTS, true
+				}
+			}
+			if sim != nil && ti == lead {
+				// the front end's parameter bookkeeping, then the segmenter's decision
+				if a.HasParams && (nalBased || a.RA) && a.Params != simCur {
+					simCur, simPend = a.Params, true
+				}
+				if t.Kind != kH264 || a.RA || a.NonIDR {
+					changed := a.RA && simPend
+					if changed {
+						simPend = false
+					}
+					if simStarted || a.RA {
+						simStarted = true
+						if h.Variant == 1 {
+							sim.tsUnit(a.DTS, a.RA, changed, false)
+						} else {
+							sim.sample(a.DTS, a.RA, changed)
+						}
+					}
+				}
+				aim(s, a.DTS, true)
+			}
 		case kAAC:
 			n := 1
 			if r.Bool(1, 4) {
@@ -309,6 +530,16 @@ func genHistory(r *rng.R, long bool) history {
 				nextID++
 			}
 			s.dts += int64(n) * 1024 * t.Rate / t.SRate
+			if sim != nil && ti == lead {
+				if h.Variant == 1 {
+					sim.tsUnit(a.DTS, true, false, true)
+				} else {
+					for j := 0; j < n; j++ {
+						sim.sample(a.DTS+int64(j)*1024*t.Rate/t.SRate, true, false)
+					}
+				}
+				aim(s, a.DTS+int64(n-1)*1024*t.Rate/t.SRate, false)
+			}
 		case kOpus:
 			n := 1
 			if r.Bool(1, 4) {
@@ -332,7 +563,13 @@ func genHistory(r *rng.R, long bool) history {
 				}
 				a.Units = append(a.Units, unitA{ID: nextID, Len: 10 + r.Intn(60), OpusDur: d})
 				nextID++
+				if sim != nil && ti == lead {
+					sim.sample(s.dts, true, false)
+				}
 				s.dts += d
+			}
+			if sim != nil && ti == lead {
+				aim(s, s.dts-a.Units[len(a.Units)-1].OpusDur, false)
 			}
 		}
 		a.NTP = ntpBase + a.DTS*1e9/t.Rate
